@@ -77,6 +77,13 @@ theorem applyQuery_ml (q : Option Query) (v : Bytes) (s : PState) : (applyQuery 
   · rfl
   · split <;> split <;> rfl
 
+theorem finishAny_ml (q : Bool) (lvl t : Nat) (res : Option Bytes × PState) (M : Nat) (h : res.2.maxLvl ≤ M) :
+    (finishAny q lvl t res).2.maxLvl ≤ M := by
+  unfold finishAny
+  split
+  · simpa using h
+  · simp only [consumeSpace_ml]; simpa using h
+
 /-- all four mutually recursive scanner functions keep `maxLvl` below any bound `M ≥ cap+1`,
     provided they are entered with `lvl ≤ cap+1` -/
 theorem depth_inv (qs : List Query) (cap : Nat) (hc : cap ≠ 0) (M : Nat) (hM : cap + 1 ≤ M) : ∀ fuel : Nat,
@@ -108,68 +115,20 @@ theorem depth_inv (qs : List Query) (cap : Nat) (hc : cap ≠ 0) (M : Nat) (hM :
           have h1 : s1.maxLvl ≤ M := by
             have : s1.maxLvl = (s.enter lvl).maxLvl := by rw [← hsp, heq]
             omega
-          -- the dispatched scanner
-          have hdisp : ∀ (r : Option Bytes) (t : Nat) (s2 : PState),
-              (if c == 0x22 then
-                  let (r, s') := consumeString .norm cs s1.bump; (r, tokString, s')
-                else if c == 0x5B then
-                  let sA := s1.bump.push [0x5B]
-                  let (r, s') : Option Bytes × PState := if cs.isEmpty then (none, sA) else arrayLoop qs cap f (lvl + 1) cs sA
-                  (r, tokArray, s')
-                else if c == 0x7B then
-                  let (r, s') := objectLoop qs cap f (lvl + 1) cs s1.bump; (r, tokObject, s')
-                else if c == 0x74 then
-                  let (r, s') := consumeConst (c :: cs) [0x74, 0x72, 0x75, 0x65] s1; (r, tokTrue, s')
-                else if c == 0x66 then
-                  let (r, s') := consumeConst (c :: cs) [0x66, 0x61, 0x6C, 0x73, 0x65] s1; (r, tokFalse, s')
-                else if c == 0x6E then
-                  let (r, s') := consumeConst (c :: cs) [0x6E, 0x75, 0x6C, 0x6C] s1; (r, tokNull, s')
-                else
-                  let (r, s') := consumeNumber .start (c :: cs) s1; (r, tokNumber, s')) = (r, t, s2) →
-              s2.maxLvl ≤ M := by
-            intro r t s2 he
-            split at he
-            · have := consumeString_ml cs .norm s1.bump
-              simp only [Prod.mk.injEq] at he
-              rw [← he.2.2, this]; simpa using h1
-            · split at he
-              · have hL := ihL (lvl + 1) cs ((s1.bump).push [0x5B]) (by omega) (by simpa using h1)
-                split at he
-                · simp only [Prod.mk.injEq] at he
-                  rw [← he.2.2]; simpa using h1
-                · simp only [Prod.mk.injEq] at he
-                  rw [← he.2.2]; exact hL
-              · split at he
-                · have := ihO (lvl + 1) cs s1.bump (by omega) (by simpa using h1)
-                  simp only [Prod.mk.injEq] at he
-                  rw [← he.2.2]; exact this
-                · split at he
-                  · have := consumeConst_ml (c :: cs) [0x74, 0x72, 0x75, 0x65] s1
-                    simp only [Prod.mk.injEq] at he
-                    rw [← he.2.2, this]; exact h1
-                  · split at he
-                    · have := consumeConst_ml (c :: cs) [0x66, 0x61, 0x6C, 0x73, 0x65] s1
-                      simp only [Prod.mk.injEq] at he
-                      rw [← he.2.2, this]; exact h1
-                    · split at he
-                      · have := consumeConst_ml (c :: cs) [0x6E, 0x75, 0x6C, 0x6C] s1
-                        simp only [Prod.mk.injEq] at he
-                        rw [← he.2.2, this]; exact h1
-                      · have := consumeNumber_ml (c :: cs) .start s1
-                        simp only [Prod.mk.injEq] at he
-                        rw [← he.2.2, this]; exact h1
-          generalize hd : (if c == 0x22 then _ else _ : Option Bytes × Nat × PState) = disp
-          obtain ⟨rv, t, s2⟩ := disp
-          have h2 := hdisp rv t s2 hd
-          simp only
-          split
-          · simpa using h2
-          · rename_i r
-            have := consumeSpace_ml r ((s2.setFirst lvl t).setQ qs.isEmpty)
-            generalize consumeSpace r ((s2.setFirst lvl t).setQ qs.isEmpty) = cr at this
-            obtain ⟨r', s5⟩ := cr
-            simp only at this ⊢
-            rw [this]; simpa using h2
+          -- the dispatched scanner keeps the bound; so does the tail
+          apply finishAny_ml
+          cases classify c with
+          | str => simp only; rw [consumeString_ml]; simpa using h1
+          | arr =>
+            simp only
+            split
+            · simpa using h1
+            · exact ihL (lvl + 1) cs _ (by omega) (by simpa using h1)
+          | obj => exact ihO (lvl + 1) cs s1.bump (by omega) (by simpa using h1)
+          | litT => simp only; rw [consumeConst_ml]; exact h1
+          | litF => simp only; rw [consumeConst_ml]; exact h1
+          | litN => simp only; rw [consumeConst_ml]; exact h1
+          | num => simp only; rw [consumeNumber_ml]; exact h1
     · intro lvl b s hl hs
       simp only [arrayLoop]
       have hsp := consumeSpace_ml b s
